@@ -108,7 +108,7 @@ CandsData(s, sc) ==
          THEN {[op |-> "set_name", kind |-> kind, x |-> x, val |-> v] : <<x, v>> \in X \X (sc.names \ {NoVal})}
          ELSE {})
         \cup (IF On(sc, "del_name:" \o kind)
-         THEN {[op |-> "del_name", kind |-> kind, x |-> x] : x \in X} ELSE {})
+         THEN {[op |-> o, kind |-> kind, x |-> x] : <<o, x>> \in {"del_name", "set_name_none"} \X X} ELSE {})
         \cup (IF On(sc, "set_eid:" \o kind)
          THEN {[op |-> "set_item", kind |-> kind, x |-> x, key |-> "eid", val |-> v] : <<x, v>> \in X \X sc.vals}
          ELSE {})
